@@ -623,8 +623,12 @@ def check_selector_c07(ctx, sel):
     ctx.check(got is not None and got == wnt, rule, "containment-mask", st.loc(), "exactly the intervals that contain the chosen point are removed: start <= cpt < end", found=repr(mask), expected=repr(want_mask))
     okz = isinstance(val, Num) and val.nf is not None and (val.nf.is_zero() or nf_equal(val.nf, thr) or nf_equal(val.nf, -sym("inf"))) and not st.data.get("aug")
     ctx.check(okz, rule, "zeroing", st.loc(), "removed intervals get a score that can never exceed the (non-negative) threshold again: 0, the threshold itself or -inf", found=repr(val))
+    # in place (`cpts.sort(); return cpts`) or as a sorted copy (`return sorted(cpts)`), after the loop
     srt = [e for e in p.events if e.kind == "list_sort"]
-    ctx.check(len(srt) == 1 and apps and srt[0].data["lst"] is apps[0].data["lst"] and p.value is apps[0].data["lst"] and not srt[0].loops, rule, "sorted-result", srt[0].loc() if srt else sel.loc(), "the collected changepoints are sorted and returned", found=repr(p.value))
+    ok_inplace = len(srt) == 1 and bool(apps) and srt[0].data["lst"] is apps[0].data["lst"] and p.value is apps[0].data["lst"] and not srt[0].loops
+    sd = [e for e in p.events if e.kind == "sorted"]
+    ok_copy = len(sd) == 1 and bool(apps) and sd[0].data["src"] is apps[0].data["lst"] and p.value is sd[0].data["result"] and not sd[0].loops and not srt
+    ctx.check(ok_inplace or ok_copy, rule, "sorted-result", (srt[0].loc() if srt else (sd[0].loc() if sd else sel.loc())), "the collected changepoints are sorted and returned", found=repr(p.value))
 
 
 def _arrsub(nf, aid):
